@@ -161,7 +161,9 @@ def build_project(pat, old, fmt, files, entries, explicit_cfg):
     if explicit_cfg:
         own = 'current_version = "{version}"' if fmt.endswith(".toml") else "current_version = {version}"
         entries = [(fmt, [own])] + entries
-    tree = {fmt: pt.config_text(fmt, pat.text, old_text, entries).encode("utf-8"), "bystander.txt": (old_text + "\n").encode()}
+    # the config file is a pattern file too: it carries non-ASCII text (a comment) that must survive, in any locale
+    tree = {fmt: pt.config_text(fmt, pat.text, old_text, entries, extra="# préambule € \U0001F680").encode("utf-8"),
+            "bystander.txt": (old_text + "\n").encode()}
     for f in files:
         tree[f.name] = f.render_old(old).encode("utf-8")
     return tree, files
@@ -222,6 +224,12 @@ def run_project(st, pat, label, old, new, fmt, lid, arrangement, files, entries,
         if o2.exit != 0 or shown != [announced]:
             problems.append(("show", fmt, f"show reports {shown!r} (exit {o2.exit}), announced {announced!r}"))
     if "bytes" in want:
+        # the config file: only the version on its current_version line may change
+        before_cfg = tree[fmt].decode("utf-8").split("\n")
+        after_cfg = after[fmt].decode("utf-8", errors="surrogateescape").split("\n")
+        exp_cfg = [(l.replace(old_text, announced or new_text, 1) if l.startswith("current_version") else l) for l in before_cfg]
+        if after_cfg != exp_cfg:
+            problems.append(("bytes", fmt, "config file changed outside its current_version value"))
         for name, data in tree.items():
             if name not in [f.name for f in files] and name != fmt and after.get(name) != data:
                 problems.append(("bystander", name, "file not named in the configuration was written"))
